@@ -289,6 +289,9 @@ def finish(ctx, level, stage_results, assumptions, floors=None, t0=None):
             harness_errors.append('stage %s: %s' % (st, r['fatal']))
     cov['rule'] = ' || '.join(rules)
     cov['inconclusive'] = inconclusive
+    replaying = bool(getattr(ctx, 'only_case', None) or getattr(ctx, 'only_stage', None))
+    if replaying:
+        floors = None   # a replay runs one case: observation floors do not apply
     # floors: minimum observations, else harness failure (exit 2)
     for name, (got, want) in (floors or {}).items():
         if got < want:
@@ -318,11 +321,12 @@ def finish(ctx, level, stage_results, assumptions, floors=None, t0=None):
     }
     if harness_errors:
         cov['harness_errors'] = harness_errors
-    os.makedirs(os.path.join(VERIF, 'evidence'), exist_ok=True)
-    evp = os.path.join(VERIF, 'evidence', prop + '.json')
-    with open(evp + '.tmp', 'w') as f:
-        json.dump(ev, f, indent=1, default=str)
-    os.replace(evp + '.tmp', evp)
+    if not replaying:   # a replay never rewrites the evidence of the full run
+        os.makedirs(os.path.join(VERIF, 'evidence'), exist_ok=True)
+        evp = os.path.join(VERIF, 'evidence', prop + '.json')
+        with open(evp + '.tmp', 'w') as f:
+            json.dump(ev, f, indent=1, default=str)
+        os.replace(evp + '.tmp', evp)
 
     seen = set()
     for k, v in matched_known:
@@ -352,8 +356,8 @@ def finish(ctx, level, stage_results, assumptions, floors=None, t0=None):
             print('HARNESS-ERROR property=%s %s' % (prop, e))
         rc = 2
     else:
-        print('HELD property=%s tier=%s seed=%d evaluations=%d distinct_nontrivial=%d inconclusive=%d' % (
-            prop, ctx.tier, ctx.seed, cov['evaluations'], cov['distinct_nontrivial'], inconclusive))
+        print('%s property=%s tier=%s seed=%d evaluations=%d distinct_nontrivial=%d inconclusive=%d' % (
+            'REPLAY-HELD' if replaying else 'HELD', prop, ctx.tier, ctx.seed, cov['evaluations'], cov['distinct_nontrivial'], inconclusive))
     sys.stdout.flush()
     return rc
 
